@@ -546,7 +546,8 @@ def make_sf_input(t, seed):
     rng = np.random.default_rng(seed * 1000 + t)
     dim = 1 + t % 3
     # equal cell counts along different axes (with unequal spacings) come first: the wave numbers of an axis depend on its LENGTH, not only on its count
-    shapes = {1: [(8,), (7,), (12,), (5,)], 2: [(4, 4), (5, 3), (6, 4), (3, 8)], 3: [(3, 2, 3), (3, 2, 5), (4, 3, 2), (2, 2, 3)]}[dim]
+    # ... and a cell count with a large prime factor (13): FFT implementations that pad to `fast` lengths change the mode set
+    shapes = {1: [(13,), (8,), (7,), (12,)], 2: [(4, 4), (13, 3), (6, 4), (3, 8)], 3: [(3, 2, 3), (3, 2, 5), (4, 3, 2), (2, 2, 3)]}[dim]
     shape = shapes[(t // 3) % 4]
     dx = [float(x) for x in rng.choice([0.05, 0.1, 0.5, 1.0, 2.0, 10.0], size=dim, replace=False)]      # pairwise different spacings
     lo = [float(x) for x in rng.choice([-3.0, 0.0, 2.5], size=dim)]
